@@ -136,9 +136,9 @@ exit 0
 // orphanSh is sourced by the shims of the commands that run as a child of the script when the
 // marker file exists: kill the script (NOT this child), optionally let a second invocation run
 // while this child is still alive, then go on with the real command.
-const orphanSh = `read VHP VHT VHK VHN < "$VH_ORPHAN"
+const orphanSh = `read VHP VHT VHK VHN VHS < "$VH_ORPHAN"
 REAL_RM -f "$VH_ORPHAN"
-kill -9 "$VHP"
+kill -${VHS:-9} "$VHP"
 if [ "$VHN" = 1 ]; then "$VH_BIN" hook "$VH_SB" "$VHT" "$VHK" 0 "-" n >>"$VH_SB/orphan.log" 2>&1; fi
 `
 
@@ -462,7 +462,7 @@ func startScript(t *tools, sbDir string, env []string, tag string, plan []planIt
 	cmd.Dir = sbDir
 	cmd.Env = append(env, "BASH_ENV="+t.trap, "VH_TRACE="+trace, "VH_HOOKS="+hooks)
 	for _, it := range plan {
-		if it.Act == "O" || it.Act == "On" {
+		if it.Act == "O" || it.Act == "On" || it.Act == "Ot" {
 			// only runs that may be killed inside a child need the shims (one more process per command)
 			for i, e := range cmd.Env {
 				if strings.HasPrefix(e, "PATH=") {
@@ -589,14 +589,25 @@ func hookMain(args []string) int {
 			}
 			os.WriteFile(os.Getenv("VH_GROUP"), []byte(fmt.Sprintf("%d\n", pid)), 0644)
 			return 0
-		case act == "O" || act == "On":
+		case act == "T" || act == "H":
+			// a catchable signal to the script process ALONE (not its group): SIGTERM / SIGHUP.  A script
+			// without handler dies at once, exactly as with K; a script with a handler that returns goes on.
+			// (SIGINT is not used: bash itself catches it and, while a foreground child runs, only exits
+			// if that child died of SIGINT too.)
+			sig := syscall.SIGTERM
+			if act == "H" {
+				sig = syscall.SIGHUP
+			}
+			syscall.Kill(pid, sig)
+			return 0
+		case act == "O" || act == "On" || act == "Ot":
 			// kill the script while the child process of its next command runs: possible only for
 			// commands that have a child; the shim of that command does it (marker file)
 			if !isExternal(cmdText, t.gitFn) {
 				syscall.Kill(pid, syscall.SIGKILL)
 				return 0
 			}
-			os.WriteFile(os.Getenv("VH_ORPHAN"), []byte(fmt.Sprintf("%d %s %s %s\n", pid, tag, k, b2s(act == "On"))), 0644)
+			os.WriteFile(os.Getenv("VH_ORPHAN"), []byte(fmt.Sprintf("%d %s %s %s %s\n", pid, tag, k, b2s(act == "On"), map[bool]string{true: "TERM", false: "9"}[act == "Ot"])), 0644)
 			return 0
 		case act == "cg" || act == "cb":
 			if err := userCommit(sbDir, env, act == "cg", "", true); err != nil {
@@ -1169,7 +1180,7 @@ func runScenario(t *tools, name string, sc scenario, drv *Nadrv) *caseResult {
 			cr.counts["run-exit:"+r.Exit]++
 			racePush = false
 			for _, it := range plan {
-				if (it.Act == "O" || it.Act == "On") && it.K == len(r.Lines) && isExternal(r.Cmds[it.K-1], t.gitFn) {
+				if (it.Act == "O" || it.Act == "On" || it.Act == "Ot") && it.K == len(r.Lines) && isExternal(r.Cmds[it.K-1], t.gitFn) {
 					r.OrphanRan = true
 					cr.counts["orphan-finished-command"]++
 				}
@@ -1405,6 +1416,8 @@ func genRun(rng *RNG) string {
 		return fmt.Sprintf("r:%d=n", genK(rng))
 	case x < 92:
 		return fmt.Sprintf("r:%d=nK%d", genK(rng), genK(rng))
+	case x < 93:
+		return fmt.Sprintf("r:%d=%s", genK(rng), Pick(rng, []string{"T", "H", "Ot"}))
 	case x < 94:
 		return fmt.Sprintf("r:%d=G", 30+rng.Intn(12))
 	case x < 96:
@@ -1444,6 +1457,12 @@ var corpus = []scenario{
 	{Kind: "seq", Events: []string{"r:", "c:g:-:1", "r:38=G", "r:", "c:g:-:1", "r:"}},
 	{Kind: "seq", Events: []string{"r:", "c:b:-:1", "r:38=G", "r:38=G", "r:"}},
 	{Kind: "seq", SysEmail: true, Events: []string{"r:16=G", "c:g:-:1", "r:", "r:"}},
+	// SIGTERM / SIGHUP to the script process alone: between two commands, and while the compiler runs (the
+	// child finishes); a script without signal handler dies exactly as with SIGKILL
+	{Kind: "seq", Events: []string{"r:", "c:g:-:1", "r:38=Ot", "r:", "c:g:-:1", "r:"}},
+	{Kind: "seq", Events: []string{"r:", "c:g:-:1", "r:40=T", "r:", "c:g:-:1", "r:"}},
+	{Kind: "seq", Events: []string{"r:", "c:g:-:1", "r:45=H", "r:", "r:"}},
+	{Kind: "seq", Events: []string{"r:", "c:g:-:1", "r:49=T", "r:", "r:"}},
 	// F-C19: killed between push and promotion (second run: 47 = git push, 48 = git reset, 50 = mv, 51 = rm, 52 = ln)
 	{Kind: "seq", Events: []string{"r:", "c:g:-:1", "r:49=K", "r:", "r:"}},
 	// killed during the compile
@@ -1623,6 +1642,14 @@ func runC19(ctx *Ctx) *Result {
 				if ctx.Thorough() || k%4 == 1 {
 					evs3 := append(append([]string{}, b...), fmt.Sprintf("r:%d=O", k), "r:")
 					scs = append(scs, scenario{Kind: "seq", SysEmail: se, Events: evs3})
+				}
+				if ctx.Thorough() || k%4 == 2 {
+					sg := []string{"T", "H", "Ot"}[(k/4)%3]
+					if ctx.Thorough() {
+						sg = []string{"T", "H", "Ot"}[k%3]
+					}
+					evsT := append(append([]string{}, b...), fmt.Sprintf("r:%d=%s", k, sg), "r:", "c:g:-:1", "r:")
+					scs = append(scs, scenario{Kind: "seq", SysEmail: se, Events: evsT})
 				}
 				if ctx.Thorough() || k%8 == 6 {
 					evsG := append(append([]string{}, b...), fmt.Sprintf("r:%d=G", k), "r:", "c:g:-:1", "r:")
